@@ -48,6 +48,9 @@ class Gen(object):
                     f[key] = datetime.time(*f[key]['tm'])
                 elif key in f and isinstance(f[key], dict):          # {'dt': [...]} instants
                     f[key] = to_dt(f[key])
+            if isinstance(f.get('as_timezone'), dict):          # {'fixed': minutes east of UTC}
+                from pytz import FixedOffset
+                f['as_timezone'] = FixedOffset(f['as_timezone']['fixed'])
             par = f.pop('__parent__', None)
             if par:                                   # a customization of a customization whose parent has validated a value already
                 c = c(pattern=par['pattern'])
